@@ -605,3 +605,150 @@ func paramRoots(u *Universe, v ssa.Value, depth int) []*ssa.Parameter {
 	}
 	return out
 }
+
+// family: g, its closures, and the functions of the module they call directly (to the given depth), each once.
+// For rules of the form "somewhere in the implementation of g, X is done": the implementation may be a closure
+// today and a named helper tomorrow.
+func family(g *ssa.Function, depth int) []*ssa.Function {
+	seen := map[*ssa.Function]bool{}
+	var out []*ssa.Function
+	var add func(f *ssa.Function, d int)
+	add = func(f *ssa.Function, d int) {
+		if f == nil || seen[f] || f.Blocks == nil {
+			return
+		}
+		seen[f] = true
+		out = append(out, f)
+		for _, a := range f.AnonFuncs {
+			add(a, d)
+		}
+		if d == 0 {
+			return
+		}
+		for _, in := range instrsOf(f) {
+			call, ok := in.(ssa.CallInstruction)
+			if !ok {
+				continue
+			}
+			callee := call.Common().StaticCallee()
+			if callee == nil || callee.Pkg == nil || !strings.HasPrefix(callee.Pkg.Pkg.Path(), modPath) {
+				continue
+			}
+			add(callee, d-1)
+		}
+	}
+	add(g, depth)
+	return out
+}
+
+// flowsFromIP: like flowsFrom, and across function boundaries of the module: a parameter comes from the arguments
+// of the function's static call sites, the result of a call of a module function from the values it returns
+func flowsFromIP(u *Universe, v ssa.Value, depth int, pred func(ssa.Value) bool) bool {
+	seen := map[ssa.Value]bool{}
+	var walk func(v ssa.Value, d int) bool
+	walk = func(v ssa.Value, d int) bool {
+		hit := false
+		flowsFrom(v, func(x ssa.Value) bool {
+			if hit {
+				return true
+			}
+			if pred(x) {
+				hit = true
+				return true
+			}
+			if seen[x] || d == 0 {
+				return false
+			}
+			switch y := x.(type) {
+			case *ssa.Parameter:
+				seen[x] = true
+				fn := y.Parent()
+				idx := -1
+				for i, p := range fn.Params {
+					if p == y {
+						idx = i
+					}
+				}
+				for _, cs := range u.staticCallers(fn) {
+					if idx >= 0 && idx < len(cs.Common().Args) && walk(cs.Common().Args[idx], d-1) {
+						hit = true
+						return true
+					}
+				}
+			case *ssa.Call:
+				callee := y.Call.StaticCallee()
+				if callee == nil || callee.Blocks == nil || callee.Pkg == nil || !strings.HasPrefix(callee.Pkg.Pkg.Path(), modPath) {
+					return false
+				}
+				seen[x] = true
+				for _, b := range callee.Blocks {
+					ret, ok := b.Instrs[len(b.Instrs)-1].(*ssa.Return)
+					if !ok {
+						continue
+					}
+					for j := range ret.Results {
+						if types.Identical(ret.Results[j].Type(), v.Type()) && walk(retValue(ret, j), d-1) {
+							hit = true
+							return true
+						}
+					}
+				}
+			}
+			return false
+		})
+		return hit
+	}
+	return walk(v, depth)
+}
+
+// siteIn: the function of fam that calls the named function, with those calls (nil when none does); total is the
+// number of such calls in the whole family
+func siteIn(u *Universe, fam []*ssa.Function, name string) (fn *ssa.Function, calls []ssa.CallInstruction, total int) {
+	for _, g := range fam {
+		cs := u.callsNamed(g, name)
+		total += len(cs)
+		if fn == nil && len(cs) > 0 {
+			fn, calls = g, cs
+		}
+	}
+	return
+}
+
+// returnSourcesIP: the values result idx of f can be, looking through calls of other functions of f's package
+// (helpers the function was split into) unless stop names them; depth bounds the expansion
+func returnSourcesIP(u *Universe, f *ssa.Function, idx int, depth int, stop func(name string) bool) []ssa.Value {
+	var out []ssa.Value
+	seen := map[*ssa.Function]bool{}
+	var visit func(g *ssa.Function, idx int, d int)
+	visit = func(g *ssa.Function, idx int, d int) {
+		seen[g] = true
+		for _, b := range g.Blocks {
+			ret, ok := b.Instrs[len(b.Instrs)-1].(*ssa.Return)
+			if !ok || idx >= len(ret.Results) {
+				continue
+			}
+			for _, s := range allSources(retValue(ret, idx)) {
+				var call *ssa.Call
+				ri := 0
+				switch x := s.(type) {
+				case *ssa.Call:
+					call = x
+				case *ssa.Extract:
+					if cv, ok := x.Tuple.(*ssa.Call); ok {
+						call, ri = cv, x.Index
+					}
+				}
+				if call != nil && d > 0 {
+					h := call.Call.StaticCallee()
+					if h != nil && h.Blocks != nil && h.Pkg == f.Pkg && !seen[h] && !stop(u.callName(call)) {
+						visit(h, ri, d-1)
+						continue
+					}
+				}
+				out = append(out, s)
+			}
+		}
+	}
+	visit(f, idx, depth)
+	return out
+}
